@@ -30,12 +30,12 @@ PLAN = dict(
                 "reason to refuse, one-sided (no accepted-then-rejected artifact) elsewhere. Hand-written cases guarantee the mandatory shapes on every run."),
     level_note=NOTE_BASE,
     runs=[
-        dict(name="dir", run="^(TestPropDirBundle|TestFixedDirBundle|TestCorpus)$", checks=(40, 400), shards=(1, 8), timeout=(300, 1800)),
-        dict(name="sign", run="^(TestPropSignSections|TestFixedSignSections)$", checks=(25, 150), shards=(1, 8), timeout=(300, 1800)),
-        dict(name="ib", run="^(TestPropSignIntegrity|TestFixedSignIntegrity)$", checks=(10, 40), shards=(1, 8), timeout=(300, 1800)),
-        dict(name="cert", run="^(TestPropCertURL|TestFixedCertURL)$", checks=(10, 60), shards=(1, 8), timeout=(300, 1800)),
-        dict(name="sxg", run="^(TestPropSxg|TestFixedSxg)$", checks=(40, 300), shards=(1, 8), timeout=(300, 1800)),
-        dict(name="har", run="^(TestPropHar|TestFixedHar)$", checks=(40, 300), shards=(1, 8), timeout=(300, 1800)),
+        dict(name="dir", run="^(TestPropDirBundle|TestFixedDirBundle|TestCorpus)$", checks=(40, 2000), shards=(1, 16), timeout=(300, 3600)),
+        dict(name="sign", run="^(TestPropSignSections|TestFixedSignSections)$", checks=(25, 750), shards=(1, 16), timeout=(300, 3600)),
+        dict(name="ib", run="^(TestPropSignIntegrity|TestFixedSignIntegrity)$", checks=(10, 200), shards=(1, 16), timeout=(300, 3600)),
+        dict(name="cert", run="^(TestPropCertURL|TestFixedCertURL)$", checks=(10, 300), shards=(1, 16), timeout=(300, 3600)),
+        dict(name="sxg", run="^(TestPropSxg|TestFixedSxg)$", checks=(40, 1500), shards=(1, 16), timeout=(300, 3600)),
+        dict(name="har", run="^(TestPropHar|TestFixedHar)$", checks=(40, 1500), shards=(1, 16), timeout=(300, 3600)),
     ],
     require=[("dir-bundle", "name-with-space"), ("dir-bundle", "name-non-ascii"), ("dir-bundle", "index-html-nested"), ("dir-bundle", "index-html-root"),
              ("dir-bundle", "empty-file"), ("dir-bundle", "v:b1"), ("dir-bundle", "v:b2"), ("dir-bundle", "base-no-trailing-slash"),
